@@ -249,15 +249,28 @@ def datalogClean (d : DataLog) (id : Nat) : DataLog × List DataRequest :=
       ({ acc.1 with native := acc.1.native ++ [{ fd with waiters := ws }] }, acc.2 ++ rs))
     ({ d with native := [] }, [])
 
-/-- `DataLog::remove_waiters_for_id(id, filter)` -/
+/-- `$share/<group>/<path>` → `(group, path)` (`extract_group`) -/
+def extractGroup (path : String) : Option (String × String) :=
+  let p := path.toList
+  let pre := "$share/".toList
+  if pre.isPrefixOf p then
+    let rest := p.drop pre.length
+    match rest.idxOf? '/' with
+    | none => none
+    | some i => some (String.ofList rest, String.ofList (rest.drop (i + 1)))   -- group key = "<share name>/<filter>"
+  else none
+
+/-- `DataLog::remove_waiters_for_id(id, filter)`: the waiter of this connection whose request
+    has this filter, in the log of the filter with the `$share/<group>/` prefix stripped -/
 def removeWaiterFor (d : DataLog) (id : Nat) (filter : String) : DataLog :=
-  match d.filterIdx? filter with
+  let logFilter := match extractGroup filter with | some (_, p) => p | none => filter
+  match d.filterIdx? logFilter with
   | none => d
   | some idx =>
     match d.native[idx]? with
     | none => d
     | some fd =>
-      match fd.waiters.findIdx? (fun w => w.1 == id) with
+      match fd.waiters.findIdx? (fun w => w.1 == id && w.2.filter == filter) with
       | none => d
       | some i => { d with native := d.native.set idx { fd with waiters := swapRemoveBack fd.waiters i } }
 
@@ -447,16 +460,6 @@ def commitAck (s : RState) (id : Nat) (a : Ack) : M RState :=
   | none => .error (.panic "ackslog.get_mut(id).unwrap()")
   | some c => .ok ((setConn s id { c with acks := { c.acks with committed := c.acks.committed ++ [a] } }).g (.committed id a))
 
-def extractGroup (path : String) : Option (String × String) :=
-  let p := path.toList
-  let pre := "$share/".toList
-  if pre.isPrefixOf p then
-    let rest := p.drop pre.length
-    match rest.idxOf? '/' with
-    | none => none
-    | some i => some (String.ofList (rest.take i), String.ofList (rest.drop (i + 1)))
-  else none
-
 def validSubscription (path : String) : Bool :=
   !(path.toList.head? = some '$' && !("$share".toList.isPrefixOf path.toList))
 
@@ -526,7 +529,15 @@ def unsubscribeFilters (s : RState) (id : Nat) : List String → List Bool → M
       | some c =>
         if !c.subscriptions.contains f then unsubscribeFilters s id rest (rs ++ [false]) else
         let c := { c with subscriptions := c.subscriptions.filter (· ≠ f) }
-        let s := { s with shared := removeFromGroups s.shared c.clientId }
+        -- leave the group of this shared subscription only; drop the group if now empty
+        let s := match extractGroup f with
+          | none => s
+          | some (gname, _) =>
+            match alookup gname s.shared with
+            | none => s
+            | some g =>
+              let g' := g.removeClient c.clientId
+              { s with shared := if g'.clients.isEmpty then aremove gname s.shared else ainsert gname g' s.shared }
         let c := { c with brokerAliases := c.brokerAliases.map (fun b => BrokerAliases.removeAlias b f),
                           subscriptionIds := aremove f c.subscriptionIds }
         let c := { c with tracker := { c.tracker with requests := c.tracker.requests.filter (·.filter ≠ f) } }
@@ -750,22 +761,24 @@ def forwardDeviceData (s : RState) (id : Nat) (req : DataRequest) : M (RState ×
         let s := setConn s id { c with out := out, brokerAliases := ba }
         let s := pushNotifs s c.link notifs
         let len := (getLink s c.link).obuf.length
-        if len ≥ MAX_CHANNEL_CAPACITY - 1 then
-          .ok (wakeLink (pushNotifs s c.link [Notif.unschedule]) c.link, req, .bufferFull)
-        else
-          let s := wakeLink s c.link
+        -- the group's turn and cursor advance whenever publishes were pushed (also on BufferFull)
+        let r : M RState :=
           match req.group, grp with
           | some gname, some _ =>
-            -- re-read the group: it is the same object, not modified since
             match alookup gname s.shared with
-            | none => .ok (s, req, if caughtup then .filterCaughtup else .partialRead)
+            | none => .ok s
             | some g =>
               match updateNextClient s g with
               | .error e => .error e
-              | .ok (s, g) =>
-                let s := { s with shared := ainsert gname { g with cursor := req.cursor } s.shared }
-                .ok (s, req, if caughtup then .filterCaughtup else .partialRead)
-          | _, _ => .ok (s, req, if caughtup then .filterCaughtup else .partialRead)
+              | .ok (s, g) => .ok { s with shared := ainsert gname { g with cursor := req.cursor } s.shared }
+          | _, _ => .ok s
+        match r with
+        | .error e => .error e
+        | .ok s =>
+          if len ≥ MAX_CHANNEL_CAPACITY - 1 then
+            .ok (wakeLink (pushNotifs s c.link [Notif.unschedule]) c.link, req, .bufferFull)
+          else
+            .ok (wakeLink s c.link, req, if caughtup then .filterCaughtup else .partialRead)
 
 /-- `ack_device_data` -/
 def ackDeviceData (s : RState) (id : Nat) : RState :=
@@ -829,12 +842,13 @@ def consumeLoop (s : RState) (id : Nat) : Nat → List DataRequest → List Data
 
 /-- `consume()`; the Bool is `is_some()` -/
 def consume (s : RState) : M (RState × Bool) :=
-  match s.readyqueue with
-  | [] => .ok (s, false)
+  -- `Scheduler::poll`: ids of removed connections are skipped
+  match s.readyqueue.dropWhile (fun id => (s.conns.get? id).isNone) with
+  | [] => .ok ({ s with readyqueue := [] }, false)
   | id :: rq =>
     let s := { s with readyqueue := rq }
     match getConn s id with
-    | none => .ok (s, false)           -- `trackers.get_mut(id)?`: the id is dropped, `None` returned
+    | none => .ok (s, false)           -- unreachable after dropWhile
     | some c =>
       let requests := c.tracker.requests
       let s := setConn s id { c with tracker := { c.tracker with requests := [] } }
